@@ -17,7 +17,7 @@
             check_confirmations / refund / stale rebroadcast to a memo that differs but is coherent with a
             consistent script, and a kill inside the responder's own statements), hence whole-block and
             multi-block composition. *)
-From TeosModel Require Import Base ListAux TxIndex TxIndexProofs Tower TowerMon TowerStable TowerInv TowerProofs TowerLedger Crash CrashOps CrashOpsProofs CrashReplay.
+From TeosModel Require Import Base ListAux TxIndex TxIndexProofs Tower TowerMon TowerStable TowerInv TowerProofs TowerLedger TowerBreach Crash CrashOps CrashOpsProofs CrashReplay.
 From TeosModel.Gen Require Consts Bootstrap.
 From Coq Require Import Lia.
 Local Open Scope N_scope.
@@ -410,4 +410,250 @@ Proof.
   - intros x. apply ins_only_row.
   - intros u Hu. apply has_trk_find. exact Hu.
   - apply Forall_forall. intros x Hx. apply (Hcmp x Hx).
+Qed.
+(* 5. the gatekeeper's purge replayed after its commit, and gatekeeper + watcher composed *)
+Lemma memo_nil_coherent sc t : car_memo t = [] -> memo_coherent sc t.
+Proof. intros H tx r. rewrite H. discriminate. Qed.
+
+Theorem gatekeeper_replay_done tA h tA' tB :
+  Inv tA -> gk_block_connected tA h = Ok tt tA' ->
+  cfg tB = cfg tA -> gk_users tB = db_users tA' ->
+  gk_block_connected tB h = Ok tt (set_gk_height tB h).
+Proof.
+  intros HI. unfold gk_block_connected.
+  destruct (outdated_users (c_delta (cfg tA)) h (gk_users tA)) as [out|] eqn:Eo; [|discriminate].
+  intros H Hc Hg. inversion H; subst tA'; clear H. rewrite Hc, Hg.
+  assert (Hu : db_users (set_gk_height (if match out with [] => true | _ => false end then tA else p_purge tA out) h)
+               = filter (fun r => negb (memN (fst r) out)) (db_users tA)).
+  { destruct out as [|o os]; [|reflexivity]. cbn. symmetry. apply filter_true. intros; reflexivity. }
+  rewrite Hu, (outdated_filtered (c_delta (cfg tA)) h out (db_users tA)); [reflexivity|].
+  intros u ui Hin.
+  assert (Hgk : In (u, ui) (gk_users tA)).
+  { apply aget_In. rewrite (inv_sync tA HI u). apply aget_In_nodup; [exact (inv_users_nodup tA HI)|exact Hin]. }
+  destruct (outdated_spec _ _ _ _ Eo u ui Hgk) as [lim [El Hk]]. exists lim. split; [exact El|].
+  intros Hh. specialize (Hk Hh). unfold memN. apply existsb_exists. exists u. split; [exact Hk|apply N.eqb_refl].
+Qed.
+
+Lemma gk_block_frame t h t' : gk_block_connected t h = Ok tt t' ->
+  r_index t' = r_index t /\ car_height t' = car_height t /\ car_memo t' = car_memo t /\ reorged t' = reorged t /\
+  w_cache t' = w_cache t /\ cfg t' = cfg t.
+Proof.
+  unfold gk_block_connected. destruct (outdated_users _ _ _) as [out|]; [|discriminate].
+  intros H; inversion H; subst. destruct out; repeat split.
+Qed.
+
+(* GATEKEEPER + WATCHER REPLAYED.  A block's gatekeeper and watcher listeners, first attempt from a poll-boundary
+   state tA with the node answering sc1, killed after the purge and any number j of the watcher's tracker inserts;
+   restart (CrashOps.restart: memory rebuilt, gatekeeper reloaded from the table); the same block again with the
+   node answering sc2, outside the recorded class: the tables after the two listeners are EXACTLY those of the
+   uninterrupted run at that point. *)
+Theorem gw_replay sc1 sc2 tA hash txs j tg tA' tB' :
+  Inv tA -> at_poll_boundary tA ->
+  gk_block_connected tA (gk_height tA + 1) = Ok tt tg ->
+  w_block_connected sc1 tg (cache_block hash txs) (gk_height tA + 1) = Ok tt tA' ->
+  let dB := execs (db_of tg) (firstn j (w_inserts sc1 tg txs)) in
+  replay_ok tg dB txs sc1 sc2 ->
+  gw_connected sc2 (restart tA dB) hash txs = Ok tt tB' ->
+  db_of tB' = db_of tA'.
+Proof.
+  intros HI [_ Hm] HG HW dB Hok. unfold gw_connected.
+  change (gk_height (restart tA dB)) with (gk_height tA).
+  pose proof (ins_only_w sc1 tg txs) as Hio.
+  assert (HP : ins_only (firstn j (w_inserts sc1 tg txs))).
+  { apply Forall_forall. intros s Hs. unfold ins_only in Hio. rewrite Forall_forall in Hio. apply Hio. eapply in_firstn. exact Hs. }
+  destruct (execs_ins_keeps _ HP (db_of tg)) as [Ku _]. fold dB in Ku.
+  assert (Hgu : gk_users (restart tA dB) = db_users tg).
+  { change (gk_users (restart tA dB)) with (d_users dB). rewrite Ku. reflexivity. }
+  rewrite (gatekeeper_replay_done tA (gk_height tA + 1) tg (restart tA dB) HI HG eq_refl Hgu). cbn [bind].
+  destruct (gk_block_frame _ _ _ HG) as [F1 [F2 [F3 _]]].
+  intros HB.
+  apply (watcher_replay sc1 sc2 tg (set_gk_height (restart tA dB) (gk_height tA + 1)) hash txs (gk_height tA + 1) j tA' tB').
+  - apply memo_nil_coherent. rewrite F3. exact Hm.
+  - apply memo_nil_coherent. reflexivity.
+  - rewrite F1. reflexivity.
+  - rewrite F2. reflexivity.
+  - change (db_of (set_gk_height (restart tA dB) (gk_height tA + 1))) with (db_of (restart tA dB)). rewrite db_of_restart. reflexivity.
+  - change (db_of (set_gk_height (restart tA dB) (gk_height tA + 1))) with (db_of (restart tA dB)). rewrite db_of_restart. exact Hok.
+  - exact HW.
+  - exact HB.
+Qed.
+(* 6. API operations: the states a kill leaves, and the client's resubmission *)
+
+(* register issues ONE statement: a kill leaves the tables before or after the registration, nothing in between *)
+Theorem register_crash_two_states le t u sc k :
+  not_abort (snd (step le t (ORegister u) sc)) ->
+  crash_at le k t (ORegister u) sc = db_of t \/
+  crash_at le k t (ORegister u) sc = db_of (fst (step le t (ORegister u) sc)).
+Proof.
+  intros Hn. rewrite (op_is_its_trace le t _ sc Hn). unfold crash_at.
+  destruct (stmts_firstn (op_micro le t (ORegister u) sc) k) as [k' Hk']. rewrite Hk'.
+  assert (Hl : (length (stmts_of (op_micro le t (ORegister u) sc)) <= 1)%nat).
+  { unfold op_micro, op_segs. cbn [flat_segs flat_map flat_seg]. rewrite app_nil_r, stmts_of_app, stmts_ack_if_ok, app_nil_r.
+    unfold tr_add_update_user. destruct (gk_get _ u); destruct (u32_add _ _); cbn; lia. }
+  destruct (stmts_of (op_micro le t (ORegister u) sc)) as [|s [|s2 l]]; [left; destruct k'; reflexivity| |cbn in Hl; lia].
+  destruct k' as [|k']; [left; reflexivity|right]. cbn [firstn]. destruct k'; reflexivity.
+Qed.
+
+(* registration is additive by design (every call adds the subscription's slots): a client that resubmits after a
+   kill that came after the statement is registered twice - resubmission is NOT idempotent for register *)
+Theorem register_resubmission_refuted :
+  exists le t u sc k,
+    Inv t /\ let t2 := restart t (crash_at le k t (ORegister u) sc) in
+    balance (db_of (fst (step le t2 (ORegister u) sc))) u =
+    balance (db_of (fst (step le t (ORegister u) sc))) u + c_slots (cfg t).
+Proof. exists true, ex_t, 1, [], 1%nat. split; [exact ex_t_inv|]. vm_compute. reflexivity. Qed.
+
+Lemma map_update_same (m : list (N * uinfo)) u v :
+  NoDup (map fst m) -> aget m u = Some v -> map (fun r => if N.eqb (fst r) u then (u, v) else r) m = m.
+Proof.
+  intros Hnd Hg. rewrite <- (map_id m) at 2. apply map_ext_in. intros [k x] Hin. cbn [fst].
+  destruct (N.eqb k u) eqn:E; [|reflexivity]. apply N.eqb_eq in E. subst k.
+  rewrite (aget_In_nodup m u x Hnd Hin) in Hg. inversion Hg. reflexivity.
+Qed.
+
+Lemma repl_same a l : NoDup (map app_uuid l) -> In a l -> repl a l = l.
+Proof.
+  intros Hnd Hin. unfold repl. rewrite <- (map_id l) at 2. apply map_ext_in. intros x Hx.
+  destruct (uuid_eqb (app_uuid x) (app_uuid a)) eqn:E; [|reflexivity]. apply uuid_eqb_eq in E.
+  symmetry. eapply NoDup_map_inj; eassumption.
+Qed.
+
+(* add_appointment, reply lost: the kill came after every statement (the receipt never reached the client, who
+   resubmits the same request to the restarted tower): accepted again with the same receipt data, and the tables
+   are EXACTLY those of the uninterrupted run - nothing is charged twice (appointment not triggered) *)
+Theorem add_resubmission_reply_lost le t u loc b delay sig sc sc' t' st sg sl e :
+  Inv t -> ti_get (w_cache t) loc = None ->
+  step le t (OAdd (Some u) loc b delay sig) sc = (t', OAddRes (AddOk st sg sl e)) ->
+  let t2 := restart t (db_of t') in
+  db_of (fst (step le t2 (OAdd (Some u) loc b delay sig) sc')) = db_of t' /\
+  snd (step le t2 (OAdd (Some u) loc b delay sig) sc') = OAddRes (AddOk st sg sl e).
+Proof.
+  intros HI Hc. cbn [step wrap]. unfold w_add_appointment. change (set_rpc_log t []) with (fresh t).
+  destruct (authenticate (fresh t) (Some u)) as [u0|] eqn:Ea; [|cbn; intros H; inversion H].
+  apply authenticate_Some in Ea. destruct Ea as [Hs Hmem]. inversion Hs; subst u0; clear Hs.
+  destruct (gk_get (fresh t) u) as [ui|] eqn:Eg; [|cbn; intros H; inversion H].
+  destruct (N.leb (u_expiry ui) (gk_height (fresh t))) eqn:Ee; [cbn; intros H; inversion H|].
+  destruct (find_trk (db_trks (fresh t)) (loc, u)) eqn:Et; [cbn; intros H; inversion H|].
+  unfold gk_add_update_appointment. rewrite Eg.
+  assert (Eu : aget (db_users t) u = Some ui) by (rewrite <- (inv_sync t HI u); exact Eg).
+  change (db_apps (fresh t)) with (db_apps t).
+  change (match find_app (db_apps t) (loc, u) with Some a => slots_of (b_len (a_blob a)) | None => 0 end) with (used_by t loc u).
+  destruct (N.leb (slots_of (b_len b)) (u_slots ui + used_by t loc u)) eqn:El; cbn [bind]; [|cbn; intros H; inversion H].
+  set (s := (u_slots ui + used_by t loc u - slots_of (b_len b)) mod U32MOD).
+  set (ui' := mk_uinfo s (u_start ui) (u_expiry ui)).
+  set (t1 := p_set_user (fresh t) u ui').
+  set (a := mk_app loc u b delay sig (w_height (fresh t))).
+  change (w_cache t1) with (w_cache t). rewrite Hc.
+  assert (Hrow : amem (db_users t1) u = true).
+  { unfold amem. change (db_users t1) with (map (fun r => if N.eqb (fst r) u then (u, ui') else r) (db_users t)).
+    rewrite aget_map_update, N.eqb_refl, Eu. reflexivity. }
+  unfold w_store_ok, w_store_appointment. change (a_user a) with u. change (db_apps t1) with (db_apps t). change (app_uuid a) with (loc, u).
+  rewrite Hrow.
+  assert (Hs_lt : s < U32MOD) by (apply N.mod_lt; discriminate).
+  (* the state after the first run *)
+  assert (Hfirst : forall tt', (tt' = p_update_app t1 a /\ find_app (db_apps t) (loc, u) <> None) \/
+                              (tt' = p_insert_app t1 a /\ find_app (db_apps t) (loc, u) = None) ->
+            let t2 := restart t (db_of tt') in
+            db_of (fst (wrap OAddRes (w_add_appointment sc' (fresh t2) (Some u) loc b delay sig))) = db_of tt' /\
+            snd (wrap OAddRes (w_add_appointment sc' (fresh t2) (Some u) loc b delay sig)) =
+              OAddRes (AddOk (a_start a) sig s (u_expiry ui))).
+  { intros tt' Htt t2.
+    assert (Husers : db_users tt' = map (fun r => if N.eqb (fst r) u then (u, ui') else r) (db_users t)) by (destruct Htt as [[-> _]|[-> _]]; reflexivity).
+    assert (Happs : db_apps tt' = stored (db_apps t) a).
+    { unfold stored. change (app_uuid a) with (loc, u). destruct Htt as [[-> Hf]|[-> Hf]].
+      - destruct (find_app (db_apps t) (loc, u)); [reflexivity|contradiction].
+      - rewrite Hf. reflexivity. }
+    assert (Htrks : db_trks tt' = db_trks t) by (destruct Htt as [[-> _]|[-> _]]; reflexivity).
+    assert (HI2 : Inv t2).
+    { apply recover_inv. apply dbinv_of_inv.
+      destruct Htt as [[-> Hf]|[-> Hf]].
+      - destruct (find_app (db_apps t) (loc, u)) as [a0|] eqn:Ef; [|contradiction].
+        eapply inv_update_app; [eapply inv_set_user; [eapply inv_frame; [|exact HI]; repeat split|exact Eg]|exact Ef].
+      - eapply inv_insert_app; [eapply inv_set_user; [eapply inv_frame; [|exact HI]; repeat split|exact Eg]|exact Hf|exact Hrow]. }
+    assert (Hg2 : gk_get (fresh t2) u = Some ui').
+    { unfold gk_get. change (gk_users (fresh t2)) with (db_users tt'). rewrite Husers, aget_map_update, N.eqb_refl, Eu. reflexivity. }
+    assert (Hin_a : In a (db_apps tt')).
+    { rewrite Happs. unfold stored. change (app_uuid a) with (loc, u). destruct (find_app (db_apps t) (loc, u)) as [a0|] eqn:Ef.
+      - apply find_app_Some in Ef. destruct Ef as [Hi He]. apply in_map_iff. exists a0. split; [|exact Hi].
+        change (app_uuid a) with (loc, u). rewrite He, uuid_eqb_refl. reflexivity.
+      - apply in_or_app. right. left. reflexivity. }
+    assert (Hfa : find_app (db_apps tt') (loc, u) = Some a).
+    { exact (find_app_unique (db_apps tt') a (inv_apps_nodup t2 HI2) Hin_a). }
+    unfold w_add_appointment.
+    assert (Hauth : authenticate (fresh t2) (Some u) = Some u).
+    { unfold authenticate, amem. unfold gk_get in Hg2. rewrite Hg2. reflexivity. }
+    rewrite Hauth, Hg2. change (u_expiry ui') with (u_expiry ui). change (gk_height (fresh t2)) with (gk_height (fresh t)). rewrite Ee.
+    change (db_trks (fresh t2)) with (db_trks tt'). rewrite Htrks. change (db_trks t) with (db_trks (fresh t)). rewrite Et.
+    unfold gk_add_update_appointment. rewrite Hg2. change (db_apps (fresh t2)) with (db_apps tt'). rewrite Hfa.
+    change (b_len (a_blob a)) with (b_len b). change (u_slots ui') with s.
+    assert (Hle : N.leb (slots_of (b_len b)) (s + slots_of (b_len b)) = true) by (apply N.leb_le; lia).
+    rewrite Hle. cbn [bind].
+    assert (Hs2 : (s + slots_of (b_len b) - slots_of (b_len b)) mod U32MOD = s) by (rewrite N.add_sub; apply N.mod_small; exact Hs_lt).
+    rewrite Hs2. change (mk_uinfo s (u_start ui') (u_expiry ui')) with ui'.
+    set (t3 := p_set_user (fresh t2) u ui').
+    change (w_cache t3) with (w_cache t). rewrite Hc.
+    change (w_height (fresh t2)) with (w_height (fresh t)). fold a.
+    unfold w_store_ok, w_store_appointment. change (db_apps t3) with (db_apps tt'). change (app_uuid a) with (loc, u). rewrite Hfa.
+    cbn [bind wrap fst snd]. split; [|reflexivity].
+    unfold db_of. cbn [db_users db_apps db_trks p_update_app set_db_apps].
+    change (db_users t3) with (map (fun r => if N.eqb (fst r) u then (u, ui') else r) (db_users tt')).
+    change (db_trks t3) with (db_trks tt'). change (db_apps t3) with (db_apps tt').
+    rewrite (map_update_same (db_users tt') u ui' (inv_users_nodup t2 HI2)).
+    2:{ unfold gk_get in Hg2. exact Hg2. }
+    fold (repl a (db_apps tt')). rewrite (repl_same a (db_apps tt') (inv_apps_nodup t2 HI2) Hin_a). reflexivity. }
+  destruct (find_app (db_apps t) (loc, u)) as [a0|] eqn:Ef; cbn [bind wrap]; intros H; inversion H; subst; clear H.
+  - apply Hfirst. left. split; [reflexivity|discriminate].
+  - apply Hfirst. right. split; reflexivity.
+Qed.
+
+(* ... inside the window between the charge and the store the resubmission is charged again: that is the in-flight
+   cost (CrashOpsProofs.inflight_cost), not idempotence *)
+Theorem add_resubmission_in_window_refuted :
+  exists le t o sc k u,
+    Inv t /\ let t2 := restart t (crash_at le k t o sc) in
+    d_apps (db_of (fst (step le t2 o sc))) = d_apps (db_of (fst (step le t o sc))) /\
+    balance (db_of (fst (step le t2 o sc))) u + 2 = balance (db_of (fst (step le t o sc))) u.
+Proof.
+  exists true, ex_t, (OAdd (Some 2) 9 (mk_blob 9 (Some 29) 2049) 20 4), [], 1%nat, 2.
+  split; [exact ex_t_inv|]. vm_compute. auto.
+Qed.
+
+(* 7. what is left of the block: the responder.  After the replayed gatekeeper + watcher the responder's pass starts
+   from the SAME tables, index, heights and reorged set as in the uninterrupted run; only the carrier's memo (which
+   penalties were already submitted in this block period) and the RPC log differ. *)
+Theorem replay_block_upto_responder sc1 sc2 tA hash txs j tg tw tBw :
+  Inv tA -> at_poll_boundary tA ->
+  gk_block_connected tA (gk_height tA + 1) = Ok tt tg ->
+  w_block_connected sc1 tg (cache_block hash txs) (gk_height tA + 1) = Ok tt tw ->
+  let dB := execs (db_of tg) (firstn j (w_inserts sc1 tg txs)) in
+  replay_ok tg dB txs sc1 sc2 ->
+  gw_connected sc2 (restart tA dB) hash txs = Ok tt tBw ->
+  db_of tBw = db_of tw /\ r_index tBw = r_index tw /\ car_height tBw = car_height tw /\ reorged tBw = reorged tw /\
+  gk_height tBw = gk_height tw /\ w_height tBw = w_height tw /\ cfg tBw = cfg tw.
+Proof.
+  intros HI HB HG HW dB Hok HR.
+  split; [exact (gw_replay sc1 sc2 tA hash txs j tg tw tBw HI HB HG HW Hok HR)|].
+  destruct HB as [Hre _].
+  assert (HIg : Inv tg).
+  { pose proof (gk_block_connected_pres Inv (sa_block Inv inv_stable) tA (gk_height tA + 1) HI) as H. rewrite HG in H. exact H. }
+  destruct (gk_block_frame _ _ _ HG) as [G1 [G2 [_ [G4 [_ G6]]]]].
+  destruct (w_block_connected_frame sc1 tg hash txs _ tw HIg HW) as [_ [_ [_ [W1 [W2 [W3 [W4 [W5 [W6 _]]]]]]]]].
+  revert HR. unfold gw_connected. change (gk_height (restart tA dB)) with (gk_height tA).
+  destruct (gk_block_connected (restart tA dB) (gk_height tA + 1)) as [[] tgB|] eqn:EG; cbn [bind]; [|discriminate].
+  intros HWB.
+  assert (HIr : Inv (restart tA dB)).
+  { apply recover_inv. unfold dB. apply execs_inv. apply dbinv_of_inv. exact HIg. }
+  assert (HIgB : Inv tgB).
+  { pose proof (gk_block_connected_pres Inv (sa_block Inv inv_stable) (restart tA dB) (gk_height tA + 1) HIr) as H. rewrite EG in H. exact H. }
+  destruct (gk_block_frame _ _ _ EG) as [B1 [B2 [_ [B4 [_ B6]]]]].
+  destruct (w_block_connected_frame sc2 tgB hash txs _ tBw HIgB HWB) as [_ [_ [_ [V1 [V2 [V3 [V4 [V5 [V6 _]]]]]]]]].
+  assert (Hgh : gk_height tgB = gk_height tg).
+  { unfold gk_block_connected in EG, HG.
+    destruct (outdated_users _ _ (gk_users (restart tA dB))); [|discriminate]. destruct (outdated_users _ _ (gk_users tA)); [|discriminate].
+    inversion EG; inversion HG; reflexivity. }
+  repeat split; try congruence.
+  - rewrite V3, W3, B1, G1. reflexivity.
+  - rewrite V4, W4, B2, G2. reflexivity.
+  - rewrite V5, W5, B4, G4. rewrite Hre. reflexivity.
+  - rewrite V1, W1, B6, G6. reflexivity.
 Qed.
